@@ -989,7 +989,7 @@ struct QueH
         a_que *q = L.q;
         auto A = [](long v) -> a_size { return v == SMAX ? (a_size)-1 : (a_size)v; };
         unsigned char probe[32];
-        fill_elem(probe, (unsigned char)(o.a << 4), q->siz_);
+        fill_elem(probe, (unsigned char)((o.a & 15) << 4), q->siz_);
         switch (o.code)
         {
         case Q_PUSH_FORE: return a_que_push_fore(q) == nullptr;
